@@ -153,6 +153,8 @@ def compare(case, r, m):
     for s in STAGES:
         if s in impl and impl[s] != m.get(s):
             e2e.append((s, impl[s], m.get(s)))
+    if m.get('sc_ok') == '0':
+        loc.append(('selfcheck', 'self-check outcome %s' % selfcheck_of(case, r.get('trace', [])), 'not admissible for this configuration (Pipeline.sc_admissible)'))
     for s in LOCAL:
         k = "L:" + s
         if s in impl and k in m and impl[s] != m[k]:
